@@ -280,6 +280,9 @@ def _field_to_iso8583(bit_config, field_value, encoding=DEFAULT_ENCODING):
 
     if length_size > 0:
         field_length = len(field_value)
+        if field_length >= 10 ** length_size:
+            raise Iso8583DataError(
+                f'Field value length {field_length} cannot be held in a {length_size} digit length prefix')
         output += format(field_length, '0' + str(length_size)).encode(encoding)
 
     if isinstance(field_value, bytes):
